@@ -23,7 +23,8 @@ from spec import xmlref
 from spyne import Application, ServiceBase, rpc, Fault
 from spyne.model.binary import ByteArray
 from spyne.model.complex import ComplexModel, Array, XmlAttribute, XmlData
-from spyne.model.primitive import (Integer, Unicode, Decimal, Double, Boolean, DateTime, Date, Duration, Uuid, Integer32)
+from spyne.model.primitive import (Integer, Unicode, Decimal, Double, Boolean, DateTime, Date, Duration, Uuid, Integer32,
+                                   Integer8, Integer16, Integer64, UnsignedInteger8, UnsignedInteger64)
 from spyne.protocol.soap import Soap11, Soap12
 from spyne.protocol.xml import XmlDocument
 from spyne.server.wsgi import WsgiApplication
@@ -201,6 +202,12 @@ class Outer(ComplexModel):
     amount2 = Amount
     flag = Flag
     # constrained members: conformant values (also non-ASCII ones) pass every validator
+    # fixed-width integers: both ends of each range are values like any other
+    i8 = Integer8
+    i16 = Integer16
+    i64 = Integer64
+    u8 = UnsignedInteger8
+    u64 = UnsignedInteger64
     word = Unicode(pattern=u'\\w+', max_len=10)
     digits = Unicode(pattern=u'\\d{2,4}')
     small = Integer(ge=0, le=10)
@@ -291,9 +298,11 @@ def outer_values():
         Outer(n=1, inner=Inner(x=1, s='a', t='attr'), items=[Inner(x=1, s='a'), Inner(x=2)], tags=['p', 'q'],
               when=dt.datetime(2020, 1, 1, 0, 0, 0, 0, TZ), amount=decimal.Decimal('1.50'), code=7, must=5,
               sub=Sub(x=9, s='s', extra=3), sub2=Sub2(fb=1, fs='f', own=2), amount2=Amount(value=decimal.Decimal('12.5'), unit='kg', ratio=decimal.Decimal('0.50'), since=dt.date(2020, 2, 29)),
-              flag=Flag(on=True, count=3), word=u'Gr\xf6\xdfe', digits=u'\u0661\u0662\u0663', small=10),
+              flag=Flag(on=True, count=3), word=u'Gr\xf6\xdfe', digits=u'\u0661\u0662\u0663', small=10,
+              i8=-2 ** 7, i16=-2 ** 15, i64=-2 ** 63, u8=0, u64=0),
         Outer(must=None, amount2=Amount(value=decimal.Decimal('0'), unit='g', ratio=decimal.Decimal('0')), flag=Flag(on=False, count=0),
-              word=u'\u6771\u4eac', digits=u'0123', small=0),
+              word=u'\u6771\u4eac', digits=u'0123', small=0, i8=2 ** 7 - 1, i16=2 ** 15 - 1, i64=2 ** 63 - 1, u8=2 ** 8 - 1,
+              u64=2 ** 64 - 1),
         Outer(n=0, inner=Inner(), items=[], tags=[], must=0, sub=Sub(extra=0)),
         Outer(n=-5, items=[Inner(x=None, s=''), Inner(x=2 ** 64, s=u'\xe9', t='')], tags=['only'], code=0, must=1),
         _shared(),
@@ -364,6 +373,16 @@ def _services(got):
             got.append(('bare', (o,), ctx.in_header))
             return o
 
+        @rpc(_returns=Inner, _body_style='bare')
+        def bare_noargs(ctx):
+            got.append(('bare_noargs', (), ctx.in_header))
+            return Inner(x=11, s='no arguments', t='attr')
+
+        @rpc(_returns=Inner, _body_style='out_bare')
+        def outbare_noargs(ctx):
+            got.append(('outbare_noargs', (), ctx.in_header))
+            return Inner(x=12, s='no arguments either')
+
         @rpc(Integer, Unicode, _returns=Inner, _body_style='out_bare')
         def outbare(ctx, x, s):
             got.append(('outbare', (x, s), ctx.in_header))
@@ -396,7 +415,7 @@ def _mk_roundtrip(family, validator):
         inp, outp = _proto(family, validator)
         app = Application([_services(got)], TNS, name='VApp', in_protocol=inp, out_protocol=outp)
         wsgi = WsgiApplication(app)
-        meth = c.choose(['prims', 'struct', 'arrays', 'nothing', 'bare', 'outbare', 'shared', 'produce', 'renamed', 'forms'], 'method')
+        meth = c.choose(['prims', 'struct', 'arrays', 'nothing', 'bare', 'outbare', 'shared', 'produce', 'renamed', 'forms', 'bare_noargs', 'outbare_noargs'], 'method')
         d = app.interface.service_method_map['{%s}%s' % (TNS, meth)][0]
         if meth == 'forms':
             args = [c.choose(list(range(len(return_forms()))), 'values')]
@@ -499,10 +518,11 @@ def _mk_roundtrip(family, validator):
         else:
             rmsg = rroot
         out_ti = d.out_message._type_info
-        if meth in ('bare', 'outbare'):
+        if meth in ('bare', 'outbare', 'bare_noargs', 'outbare_noargs'):
             T = Outer if meth == 'bare' else Inner
             dec = {k: xmlref.decode_from(rmsg, ft, k, TNS) for k, ft in T.get_flat_type_info(T).items()}
-            ret = args[0] if meth == 'bare' else Inner(x=args[0], s=args[1])
+            ret = args[0] if meth == 'bare' else (Inner(x=args[0], s=args[1]) if meth == 'outbare' else (
+                Inner(x=11, s='no arguments', t='attr') if meth == 'bare_noargs' else Inner(x=12, s='no arguments either')))
             c.check('response_denotes_returned_value', xmlref.norm(T, dec) == xmlref.norm(T, ret),
                     detail=(xmlref.norm(T, dec), xmlref.norm(T, ret)))
         else:
